@@ -40,6 +40,9 @@ func gCorpus(c *Ctx, mode int) []*corpus.Spec {
 		}
 	}
 	for _, s := range all {
+		if s.HasTag("cells-only") {
+			continue // 32 symbols: only the cell-wise comparison of C05 and the Horn checks use it
+		}
 		if s.HasTag("go-only-actions") {
 			continue // action bodies in Go syntax (C10 reads them); no TypeScript rendering
 		}
@@ -180,8 +183,18 @@ func gParse(c *Ctx, mode int, tag string) {
 	}
 	// the step lemma: one macro-step of the driver from every path configuration
 	D := 4
+	// thorough: depth 5 for a handful of small grammars (the path count grows about fourfold per level)
+	deep := map[string]bool{}
 	if c.Thorough() {
-		D = 5
+		for _, n := range []string{"expr_std", "etf", "list_null", "opt_mid", "lvalue", "rlist", "dangling_else"} {
+			deep[n] = true
+		}
+	}
+	depthOf := func(name string) int {
+		if deep[name] {
+			return 5
+		}
+		return D
 	}
 	nStep := 0
 	for _, j := range jobs {
@@ -200,14 +213,14 @@ func gParse(c *Ctx, mode int, tag string) {
 		go func() {
 			defer wg.Done()
 			defer func() { <-sem }()
-			job := c.GenJob(g, j.s, j.v, "VerifStep", []int{D, mode}, tag)
+			job := c.GenJob(g, j.s, j.v, "VerifStep", []int{depthOf(j.s.Name), mode}, tag)
 			job.Tweak = nil
 			c.RunSym(job)
 		}()
 	}
 	if nStep > 0 {
 		c.Harnesses = append(c.Harnesses, "harness/gen/step.go.txt:VerifStep (emitted next to each generated Go parser)")
-		c.Bound("step lemma, inputs of any length: from every configuration whose stack spells a path of the emitted automaton (depth <= %d, up to %d slots, stale slots holding state 1 or the last state, values arbitrary int64) and every lookahead code, the emitted Go driver performs exactly the LR machine's moves over the emitted table until the next token request / accept / error (%d grammar-variant pairs); parses whose stack grows beyond %d entries are outside this lemma (they are covered up to N tokens by the exploration from the initial configuration)", D, D, nStep, D)
+		c.Bound("step lemma, inputs of any length: from every configuration whose stack spells a path of the emitted automaton (depth <= %d - thorough: 5 for seven small grammars -, up to that many slots, stale slots holding state 1 or the last state, values arbitrary int64) and every lookahead code, the emitted Go driver performs exactly the LR machine's moves over the emitted table until the next token request / accept / error (%d grammar-variant pairs); parses whose stack grows beyond %d entries are outside this lemma (they are covered up to N tokens by the exploration from the initial configuration)", D, nStep, D)
 		c.Assumptions = append(c.Assumptions, "step lemma: slices in gosym are host slices (length, capacity and aliasing after append follow the Go runtime's growth policy for the interpreter's element size - the same doubling as the real element type for the sizes explored)")
 	} else if g.NoStep != "" {
 		c.Outside = append(c.Outside, "step lemma not established on this tree (the harness writes the driver's stack variables by name and they changed: "+g.NoStep+")")
@@ -254,7 +267,7 @@ func gParse(c *Ctx, mode int, tag string) {
 		go func() {
 			defer wg.Done()
 			defer func() { <-sem }()
-			c.tsStepJob(g.Eng, s, d, g.TSPath(s.Name), D, tag)
+			c.tsStepJob(g.Eng, s, d, g.TSPath(s.Name), depthOf(s.Name), tag)
 		}()
 	}
 	if nTSStep > 0 {
